@@ -52,6 +52,9 @@ def positive_control(rep):
 
 
 def run(rep, prog, tier, scope_fn=in_scope, pid_rule='R20'):
+    from .hidden import no_hidden_state
+    rep.rule('R20.state', 'no hidden state in the anchored modules: no function writes a module-level object, no caching decorator / cached property')
+    no_hidden_state(rep, 'R20.state', prog, ['Network/transformers.py', 'Network/loaders.py', 'Network/NodalAnalysis/state_space_model.py', 'Network/NodalAnalysis/solution.py', 'dump_load.py', 'Circuit/solution.py'])
     rep.rule(f'{pid_rule}.param', 'no function in Network/, Circuit/, SignalProcessing/, dump_load.py writes (directly or through any callee, dispatch table, default callable or partial) to an object owned by one of its parameters')
     rep.rule(f'{pid_rule}.default', 'no mutable default argument is ever written')
     rep.rule(f'{pid_rule}.global', 'no function writes a module-level object or rebinds a global; no caching decorator')
